@@ -125,13 +125,56 @@ def gen_list(r, schema=True, base=0, cap=20):
     return ps, shape
 
 
-def inputs_for(*lists):
+def inputs_for(*lists, variant="orig"):
+    """`variant`: "orig" | "twin_b" (1/0 in place of true/false) | "twin_n" (5.0 in place of 5): inputs that are
+    ==-equal (and hash-equal) in Python but of another JSON type"""
     b = [True] * NB
     for ps in lists:
         for p in ps:
             if "truth" in p:
                 b[p["bi"]] = p["truth"]
-    return {"b": b, "nb": [not x for x in b], "n": 5, "s": "str"}
+    nb = [not x for x in b]
+    if variant == "twin_b":
+        b, nb = [int(x) for x in b], [int(x) for x in nb]
+    return {"b": b, "nb": nb, "n": 5.0 if variant == "twin_n" else 5, "s": "str"}
+
+
+def twin_of(ps, variant):
+    """the abstract list the same predicates denote under the twin inputs"""
+    if variant == "orig":
+        return ps
+    out = []
+    for p in ps:
+        q = dict(p)
+        if variant == "twin_b" and ("inputs.b[" in p["src"] or "inputs.nb[" in p["src"]):
+            q["a"] = "nb"           # `!1`, `1 || false`, `!0` …: not a boolean / an error: PermFail either way
+            q.pop("truth", None)
+        if variant == "twin_n" and p.get("msrc") in ("=inputs.n", "=string(inputs.n)") and p["m"] is not None:
+            q["m"] = "5.0"
+        out.append(q)
+    return out
+
+
+def twin_case(c, variant):
+    if variant == "orig":
+        return c
+    c2 = dict(c)
+    for k in ("ps", "pre", "post"):
+        if k in c2:
+            c2[k] = twin_of(c2[k], variant)
+    return c2
+
+
+SCHEDULES = [["orig"], ["orig"], ["orig", "twin_b"], ["twin_b", "orig"], ["orig", "twin_b", "orig"], ["orig", "twin_n"],
+             ["twin_n", "orig"]]
+
+
+def pack(passes):
+    """[(variant, observation)] -> the first observation made with the original inputs, carrying all passes"""
+    first = next(o for v, o in passes if v == "orig")
+    first = dict(first)
+    first["passes"] = [[v, o] for v, o in passes]
+    return first
 
 
 def spec_of(ps):
@@ -257,8 +300,8 @@ def obs_outcome(o, ku):
     return d
 
 
-def run_unit(ps, env_mod):
-    """predicate_extractor + evaluate_predicates"""
+def run_unit(ps, env_mod, schedule=("orig",)):
+    """predicate_extractor once, then evaluate_predicates on the same program once per entry of `schedule`"""
     celpy, ku, predicate_extractor, evaluate_predicates, annotations = env_mod
     env = celpy.Environment(annotations=annotations)
     prog = predicate_extractor(env, spec_of(ps))
@@ -266,16 +309,18 @@ def run_unit(ps, env_mod):
         return {"c": "continue"}
     if not isinstance(prog, celpy.Runner):
         return {"c": "prepare-" + ku.outcome_class(prog), "m": prog.message}
-    out = evaluate_predicates(prog, {"inputs": celpy.json_to_cel(inputs_for(ps))}, "unit:spec.preconditions")
-    if out is None:
-        return {"c": "continue"}
-    return obs_outcome(out, ku)
+    passes = []
+    for variant in schedule:
+        out = evaluate_predicates(prog, {"inputs": celpy.json_to_cel(inputs_for(ps, variant=variant))},
+                                  "unit:spec.preconditions")
+        passes.append((variant, {"c": "continue"} if out is None else obs_outcome(out, ku)))
+    return pack(passes)
 
 
 VF_BODY = {"locals": {"a": "=inputs.n + 1"}, "return": {"v": "=locals.a", "w": {"x": "=inputs.s"}}}
 
 
-def run_vf(ps, tracer, has_return=True):
+def run_vf(ps, tracer, has_return=True, schedule=("orig",)):
     import celpy
     import koreo_util as ku
     from koreo import result
@@ -300,16 +345,20 @@ def run_vf(ps, tracer, has_return=True):
             sites[id(fn.local_values)] = "locals"
         if fn.return_value:
             sites[id(fn.return_value.values)] = "return"
-        tracer.start(sites)
-        try:
-            out = await reconcile_value_function("wf.spec.steps.s", fn, celpy.json_to_cel(inputs_for(ps)))
-        finally:
-            trace = tracer.stop()
-        o = obs_outcome(out, ku)
-        o["trace"] = trace
-        if o["c"] == "ok":
-            o["v"] = ku.plain(out)
-        return o
+        passes = []
+        for variant in schedule:        # the same prepared Function, reconciled again
+            tracer.start(sites)
+            try:
+                out = await reconcile_value_function("wf.spec.steps.s", fn,
+                                                     celpy.json_to_cel(inputs_for(ps, variant=variant)))
+            finally:
+                trace = tracer.stop()
+            o = obs_outcome(out, ku)
+            o["trace"] = trace
+            if o["c"] == "ok":
+                o["v"] = ku.plain(out)
+            passes.append((variant, o))
+        return pack(passes)
 
     return ku.run(go())
 
@@ -325,7 +374,7 @@ RF_OBJ = {"apiVersion": "verif.koreo.dev/v1", "kind": "Gadget", "metadata": {"na
           "spec": {"x": 6}}
 
 
-def run_rf(pre, post, crud, tracer, lookup="notNeeded"):
+def run_rf(pre, post, crud, tracer, lookup="notNeeded", schedule=("orig",)):
     """`lookup`: notNeeded (apiConfig.plural given) | found | unknownKind — the two latter use a kind kr8s
     does not know, no `plural`, and a cold plural cache, so the first thing `reconcile_krm_resource` does
     after evaluating apiConfig is a discovery request (`api.lookup_kind`, logged as method LOOKUP)"""
@@ -353,13 +402,14 @@ def run_rf(pre, post, crud, tracer, lookup="notNeeded"):
         spec["preconditions"] = spec_of(pre)
     if post:
         spec["postconditions"] = spec_of(post)
-    cl = Cluster()
-    cl.log_lookups = True
-    if lookup == "unknownKind":
-        cl.unknown_kinds = {"Widget"}
-    if crud not in ("createRetry", "deletedAbsent"):
-        cl.put("verif.koreo.dev/v1", plural, "ns", "str", obj)
-    inp = inputs_for(pre, post)      # preconditions read b[0..9], postconditions b[10..19]
+    def fresh_cluster():            # the same cluster situation for every reconcile
+        cl = Cluster()
+        cl.log_lookups = True
+        if lookup == "unknownKind":
+            cl.unknown_kinds = {"Widget"}
+        if crud not in ("createRetry", "deletedAbsent"):
+            cl.put("verif.koreo.dev/v1", plural, "ns", "str", obj)
+        return cl
 
     async def go():
         ku.reset()
@@ -375,21 +425,27 @@ def run_rf(pre, post, crud, tracer, lookup="notNeeded"):
             if runner:
                 sites[id(runner)] = name
         api_cls = fn.crud_config.resource_api
-        if lookup != "notNeeded":
-            # the kr8s class is shared between prepares and memoises the discovered plural: make it cold again
-            api_cls.plural = api_cls.endpoint = PLURAL_LOOKUP_NEEDED
-        tracer.start(sites, cl)
-        try:
-            res = await reconcile_resource_function(cl, "wf.spec.steps.s", fn, ("ns", dict(ku.OWNER_REF)),
-                                                    celpy.json_to_cel(inp))
-        finally:
-            trace = tracer.stop()
+        passes = []
+        for variant in schedule:        # the same prepared Function, reconciled again
+            cl = fresh_cluster()
+            inp = inputs_for(pre, post, variant=variant)   # preconditions read b[0..9], postconditions b[10..19]
             if lookup != "notNeeded":
+                # the kr8s class is shared between prepares and memoises the discovered plural: make it cold again
                 api_cls.plural = api_cls.endpoint = PLURAL_LOOKUP_NEEDED
-        o = obs_outcome(res.outcome, ku)
-        o["trace"] = trace
-        o["mutations"] = len(cl.mutations())
-        return o
+                ku.kind_lookup._reset()
+            tracer.start(sites, cl)
+            try:
+                res = await reconcile_resource_function(cl, "wf.spec.steps.s", fn, ("ns", dict(ku.OWNER_REF)),
+                                                        celpy.json_to_cel(inp))
+            finally:
+                trace = tracer.stop()
+                if lookup != "notNeeded":
+                    api_cls.plural = api_cls.endpoint = PLURAL_LOOKUP_NEEDED
+            o = obs_outcome(res.outcome, ku)
+            o["trace"] = trace
+            o["mutations"] = len(cl.mutations())
+            passes.append((variant, o))
+        return pack(passes)
 
     return ku.run(go())
 
@@ -444,11 +500,12 @@ class Impl:
         self.tracer = Tracer()
 
     def run(self, mode, c):
+        sched = c.get("schedule", ["orig"])
         if mode == "unit":
-            return run_unit(c["ps"], self.env_mod)
+            return run_unit(c["ps"], self.env_mod, sched)
         if mode == "vf":
-            return run_vf(c["ps"], self.tracer, c["ret"])
-        return run_rf(c["pre"], c["post"], c["crud"], self.tracer, c.get("lookup", "notNeeded"))
+            return run_vf(c["ps"], self.tracer, c["ret"], sched)
+        return run_rf(c["pre"], c["post"], c["crud"], self.tracer, c.get("lookup", "notNeeded"), sched)
 
     def safe_run(self, mode, c):
         try:
@@ -458,6 +515,20 @@ class Impl:
 
     @staticmethod
     def complaints(mode, c, got):
+        """every reconcile of the same prepared Function, judged against what its own inputs denote"""
+        passes = got.get("passes") or [["orig", got]]
+        for i, (variant, o) in enumerate(passes):
+            bad = Impl.complaints_one(mode, twin_case(c, variant), o)
+            if bad is not None:
+                if len(passes) > 1:
+                    kinds = {"orig": "the original inputs", "twin_b": "1/0 in place of true/false",
+                             "twin_n": "5.0 in place of 5"}
+                    return f"reconcile #{i + 1} of the same prepared Function ({kinds[variant]}; schedule {[v for v, _ in passes]}): {bad}"
+                return bad
+        return None
+
+    @staticmethod
+    def complaints_one(mode, c, got):
         """the property's clauses on one observation; a description or None"""
         if got["c"] == "exception":
             return f"{mode}: an exception escaped: {got['m']}"
@@ -556,7 +627,7 @@ def run(tier: str) -> int:
     impl = Impl()
     drv = LeanDriver("C13")
 
-    n_unit, n_vf, n_rf = (1500, 1100, 400) if tier == "quick" else (30000, 20000, 6000)
+    n_unit, n_vf, n_rf = (1500, 1100, 400) if tier == "quick" else (18000, 12000, 4000)
     cases = []  # (mode, payload)
     for _ in range(n_unit):
         ps, shape = gen_list(r, schema=False)
@@ -592,15 +663,26 @@ def run(tier: str) -> int:
                                              "crud": ["okMatch", "deletedAbsent", "okReadonly"][exhaustive % 3]}))
                         exhaustive += 2
 
-    reqs = []
-    for mode, c in cases:
+    def req_of(mode, c):
         if mode == "unit":
-            reqs.append({"op": "decide", "ps": wire_of(c["ps"])})
-        elif mode == "vf":
-            reqs.append({"op": "vf", "pre": wire_of(c["ps"]), "ret": c["ret"]})
+            return {"op": "decide", "ps": wire_of(c["ps"])}
+        if mode == "vf":
+            return {"op": "vf", "pre": wire_of(c["ps"]), "ret": c["ret"]}
+        return {"op": "rf", "pre": wire_of(c["pre"]), "post": wire_of(c["post"]), "crud": c["crud"],
+                "lookup": c.get("lookup", "notNeeded")}
+
+    # a share of the prepared Functions is reconciled several times, with inputs that are ==-equal in Python but of
+    # another JSON type (true/1, false/0, 5/5.0), in both orders
+    for mode, c in cases:
+        if c["shape"].startswith("exhaustive") or "exhaustive" in c["shape"]:
+            c["schedule"] = ["orig"]
         else:
-            reqs.append({"op": "rf", "pre": wire_of(c["pre"]), "post": wire_of(c["post"]), "crud": c["crud"],
-                         "lookup": c.get("lookup", "notNeeded")})
+            c["schedule"] = r.choice(SCHEDULES)
+    reqs, req_index = [], {}
+    for i, (mode, c) in enumerate(cases):
+        for variant in dict.fromkeys(c["schedule"]):
+            req_index[(i, variant)] = len(reqs)
+            reqs.append(req_of(mode, twin_case(c, variant)))
     try:
         answers = drv.ask(reqs)
     except Infra as e:
@@ -609,9 +691,10 @@ def run(tier: str) -> int:
         answers = [None] * len(reqs)
         ck.notes.append(f"model driver unavailable: {e}")
 
-    for (mode, c), ans in zip(cases, answers):
+    for i, (mode, c) in enumerate(cases):
         ck.evaluated()
         got = impl.safe_run(mode, c)
+        ck.count(f"schedule:{'+'.join(c['schedule'])}")
         lists = [c["ps"]] if "ps" in c else [c["pre"], c["post"]]
         for ps in lists:
             ck.count(f"len:{len(ps)}")
@@ -652,25 +735,33 @@ def run(tier: str) -> int:
                         "impl": got_small},
                        impl.complaints(mode, small, got_small) or bad)
 
-        if ans is None or got["c"].startswith("prepare-") or got["c"] == "exception":
+        if got["c"].startswith("prepare-") or got["c"] == "exception":
             continue
-        if "error" in ans:
-            raise Infra(f"driver rejected a request: {ans['error']}")
-        if mode == "unit":
-            m = model_obs(ans, {})
-            if not agree(m, got):
-                ck.disagree({"mode": mode, "ps": wire_of(c["ps"]), "spec": spec_of(c["ps"])}, m, got, "decide-observables")
-        else:
-            m = model_obs(ans["out"], BODY_VF if mode == "vf" else BODY_RF)
-            mt, it = ans["trace"], got["trace"]
-            if not c.get("ps", c.get("pre")):
-                mt = [e for e in mt if e != "preconditions"]   # an empty list is compiled to "no program"
-            if mode == "rf" and not c["post"]:
-                mt = [e for e in mt if e != "postconditions"]
-            if not agree(m, got) or mt != it:
-                ck.disagree({"mode": mode, "case": {k: (wire_of(v) if isinstance(v, list) else v) for k, v in c.items()},
-                             "spec": {k: spec_of(c[k]) for k in ("ps", "pre", "post") if k in c}},
-                            {"out": m, "trace": mt}, {"out": got, "trace": it}, "function-outcome-and-trace")
+        for k, (variant, o) in enumerate(got.get("passes") or [["orig", got]]):
+            ans = answers[req_index[(i, variant)]]
+            if ans is None:
+                continue
+            if "error" in ans:
+                raise Infra(f"driver rejected a request: {ans['error']}")
+            cv = twin_case(c, variant)
+            label = f"reconcile #{k + 1} ({variant}) " if len(c["schedule"]) > 1 else ""
+            if mode == "unit":
+                m = model_obs(ans, {})
+                if not agree(m, o):
+                    ck.disagree({"mode": mode, "ps": wire_of(cv["ps"]), "spec": spec_of(cv["ps"]), "schedule": c["schedule"]},
+                                m, o, label + "decide-observables")
+            else:
+                m = model_obs(ans["out"], BODY_VF if mode == "vf" else BODY_RF)
+                mt, it = ans["trace"], o["trace"]
+                if not cv.get("ps", cv.get("pre")):
+                    mt = [e for e in mt if e != "preconditions"]   # an empty list is compiled to "no program"
+                if mode == "rf" and not cv["post"]:
+                    mt = [e for e in mt if e != "postconditions"]
+                if not agree(m, o) or mt != it:
+                    ck.disagree({"mode": mode, "schedule": c["schedule"],
+                                 "case": {kk: (wire_of(v) if kk in ("ps", "pre", "post") else v) for kk, v in cv.items()},
+                                 "spec": {kk: spec_of(cv[kk]) for kk in ("ps", "pre", "post") if kk in cv}},
+                                {"out": m, "trace": mt}, {"out": o, "trace": it}, label + "function-outcome-and-trace")
 
     if tier == "thorough":
         ck.cov["exhaustive"] = True
